@@ -647,6 +647,36 @@ T('C05', 'twin-setitem-invalidate-helper', FL, "            d, key = self._hashe
   more=[(FL, "    def __getitem__(self, key):\n        if isinstance(key, tuple):  # pragma: no cover\n            return self._hashed_sp.get", "    def _forget_received(self):\n        self._hashed_raw = None\n\n    def __getitem__(self, key):\n        if isinstance(key, tuple):  # pragma: no cover\n            return self._hashed_sp.get")])
 T('C05', 'twin-copy-refile-unhashed', FL, "        sp._unhashed_sp = self._unhashed_sp.copy()\n        sp._hashed_raw = copy.copy(self._hashed_raw)\n", "        sp._hashed_raw = copy.copy(self._hashed_raw)\n        sp._unhashed_sp = self._unhashed_sp.copy()\n")
 
+# families from the second independent round (bolder refactorings) and the held-out twins
+T('C02', 'twin-addnew-table-loop', PGP, "        if usage is not None:\n            sig._signature.subpackets.addnew('KeyFlags', hashed=True, flags=usage)\n\n        if exportable is not None:\n            sig._signature.subpackets.addnew('ExportableCertification', hashed=True, bflag=exportable)\n",
+  "        for spname, field, value in (('KeyFlags', 'flags', usage), ('ExportableCertification', 'bflag', exportable)):\n            if value is not None:\n                sig._signature.subpackets.addnew(spname, hashed=True, **{field: value})\n")
+M('C02', 'addnew-table-loop-unknown-field', PGP, "        if usage is not None:\n            sig._signature.subpackets.addnew('KeyFlags', hashed=True, flags=usage)\n\n        if exportable is not None:\n            sig._signature.subpackets.addnew('ExportableCertification', hashed=True, bflag=exportable)\n",
+  "        for spname, field, value in (('KeyFlags', 'flags', usage), ('ExportableCertification', 'flag', exportable)):\n            if value is not None:\n                sig._signature.subpackets.addnew(spname, hashed=True, **{field: value})\n", 'C02.3')
+M('C02', 'addnew-table-loop-unhashed-entry', PGP, "        if usage is not None:\n            sig._signature.subpackets.addnew('KeyFlags', hashed=True, flags=usage)\n\n        if exportable is not None:\n            sig._signature.subpackets.addnew('ExportableCertification', hashed=True, bflag=exportable)\n",
+  "        for spname, hashed, field, value in (('KeyFlags', True, 'flags', usage), ('ExportableCertification', False, 'bflag', exportable)):\n            if value is not None:\n                sig._signature.subpackets.addnew(spname, hashed=hashed, **{field: value})\n", 'C02.3')
+T('C02', 'twin-addnew-fields-dict-local', PGP, "        sig._signature.subpackets.addnew('ReasonForRevocation', hashed=True, code=reason, string=comment)", "        fields = {'code': reason, 'string': comment}\n        sig._signature.subpackets.addnew('ReasonForRevocation', hashed=True, **fields)")
+M('C02', 'addnew-fields-dict-local-wrong-key', PGP, "        sig._signature.subpackets.addnew('ReasonForRevocation', hashed=True, code=reason, string=comment)", "        fields = {'code': reason, 'comment': comment}\n        sig._signature.subpackets.addnew('ReasonForRevocation', hashed=True, **fields)", 'C02.3')
+T('C02', 'twin-bind-type-table', PGP, "        if self.is_primary and not key.is_primary:\n            sig_type = SignatureType.Subkey_Binding\n\n        elif key.is_primary and not self.is_primary:\n            sig_type = SignatureType.PrimaryKey_Binding\n\n        else:  # pragma: no cover\n            raise PGPError\n",
+  "        sig_type = {(True, False): SignatureType.Subkey_Binding,\n                    (False, True): SignatureType.PrimaryKey_Binding}.get((self.is_primary, key.is_primary))\n        if sig_type is None:  # pragma: no cover\n            raise PGPError\n")
+M('C02', 'bind-type-table-swapped', PGP, "        if self.is_primary and not key.is_primary:\n            sig_type = SignatureType.Subkey_Binding\n\n        elif key.is_primary and not self.is_primary:\n            sig_type = SignatureType.PrimaryKey_Binding\n\n        else:  # pragma: no cover\n            raise PGPError\n",
+  "        sig_type = {(True, False): SignatureType.PrimaryKey_Binding,\n                    (False, True): SignatureType.Subkey_Binding}.get((self.is_primary, key.is_primary))\n        if sig_type is None:  # pragma: no cover\n            raise PGPError\n", 'C02.1c')
+T('C02', 'twin-keymaterial-sign-star-call', FL, "        return self.__privkey__().sign(sigdata, padding.PKCS1v15(), hash_alg)", "        signer = self.__privkey__().sign\n        args = (sigdata, padding.PKCS1v15(), hash_alg)\n        return signer(*args)")
+M('C02', 'keymaterial-sign-star-call-fixed-hash', FL, "        return self.__privkey__().sign(sigdata, padding.PKCS1v15(), hash_alg)", "        signer = self.__privkey__().sign\n        args = (sigdata, padding.PKCS1v15(), hashes.SHA1())\n        return signer(*args)", 'C02.2')
+T('C02', 'twin-privkeyv4-sign-keywords', PK, "        return self.keymaterial.sign(sigdata, hash_alg)", "        return self.keymaterial.sign(hash_alg=hash_alg, sigdata=sigdata)")
+M('C02', 'privkeyv4-sign-keywords-crossed', PK, "        return self.keymaterial.sign(sigdata, hash_alg)", "        return self.keymaterial.sign(hash_alg=sigdata, sigdata=hash_alg)", 'C02.2')
+T('C02', 'twin-sign-hash-class-local', PGP, "        _sig = self._key.sign(sigdata, getattr(hashes, sig.hash_algorithm.name)())", "        signer = self._key.sign\n        hash_cls = getattr(hashes, sig.hash_algorithm.name)\n        _sig = signer(sigdata, hash_cls())")
+T('C02', 'twin-addnew-explicit-setitem', FL, "        if hashed:\n            self['h_' + spname] = nsp\n\n        else:\n            self[spname] = nsp", "        self.__setitem__(('h_' if hashed else '') + spname, nsp)")
+T('C02', 'twin-rsa-from-signer-int-from-bytes', FL, "        self.md_mod_n = MPI(self.bytes_to_int(sig))", "        self.md_mod_n = MPI(int.from_bytes(sig, 'big'))")
+T('C02', 'twin-eddsa-from-signer-shift-and-len', FL, EDFS, "        lsig = len(sig)\n        if lsig & 1:\n            raise PGPError(\"malformed EdDSA signature\")\n        split = lsig >> 1\n        self.r = MPI(int.from_bytes(sig[:split], 'big'))\n        self.s = MPI(int.from_bytes(sig[split:lsig], 'big'))\n")
+M('C02', 'revoker-class-octet-without-0x80', PGP, "        keyclass = RevocationKeyClass.Normal | (RevocationKeyClass.Sensitive if sensitive else 0x00)", "        keyclass = RevocationKeyClass.Sensitive if sensitive else RevocationKeyClass.Normal", 'C02.3')
+T('C05', 'twin-parse-int-from-bytes', FL, "        hl = self.bytes_to_int(packet[:2])\n        hashed_raw = packet[:2 + hl]", "        hl = int.from_bytes(packet[:2], 'big')\n        hashed_raw = packet[:2 + hl]")
+T('C05', 'twin-sigv4-copy-plan', PK, "        spkt._sigtype = self._sigtype\n        spkt._pubalg = self._pubalg\n        spkt._halg = self._halg\n\n        spkt.subpackets = copy.copy(self.subpackets)\n        spkt.hash2 = copy.copy(self.hash2)\n        spkt.signature = copy.copy(self.signature)\n",
+  "        plan = (('_sigtype', None), ('_pubalg', None), ('_halg', None),\n                ('subpackets', copy.copy), ('hash2', copy.copy), ('signature', copy.copy))\n        for name, duplicate in plan:\n            value = getattr(self, name)\n            if duplicate is not None:\n                value = duplicate(value)\n            setattr(spkt, name, value)\n")
+M('C05', 'sigv4-copy-plan-shares-subpackets', PK, "        spkt._sigtype = self._sigtype\n        spkt._pubalg = self._pubalg\n        spkt._halg = self._halg\n\n        spkt.subpackets = copy.copy(self.subpackets)\n        spkt.hash2 = copy.copy(self.hash2)\n        spkt.signature = copy.copy(self.signature)\n",
+  "        plan = (('_sigtype', None), ('_pubalg', None), ('_halg', None),\n                ('subpackets', None), ('hash2', copy.copy), ('signature', copy.copy))\n        for name, duplicate in plan:\n            value = getattr(self, name)\n            if duplicate is not None:\n                value = duplicate(value)\n            setattr(spkt, name, value)\n", 'C05.3')
+T('C05', 'twin-parse-loop-stop-form', FL, "        plen = len(packet)\n        while plen - len(packet) < hl:\n            sp = SignatureSP(packet)\n            self['h_' + sp.__class__.__name__] = sp\n        self._hashed_raw = hashed_raw\n",
+  "        stop = len(packet) - hl\n        while len(packet) > stop:\n            sp = SignatureSP(packet)\n            self['h_' + type(sp).__name__] = sp\n        self._hashed_raw = hashed_raw\n")
+
 # =============================================================================================== C07
 M('C07', 'pubkey-iterates-mpis', PK, "        for pm in self.keymaterial.__pubfields__:\n            setattr(pk.keymaterial, pm, copy.copy(getattr(self.keymaterial, pm)))", "        for pm in self.keymaterial.__mpis__:\n            setattr(pk.keymaterial, pm, copy.copy(getattr(self.keymaterial, pm)))", 'C07.1')
 M('C07', 'pubkey-builds-private', PK, "        pk = PubKeyV4() if not isinstance(self, PrivSubKeyV4) else PubSubKeyV4()", "        pk = PrivKeyV4() if not isinstance(self, PrivSubKeyV4) else PrivSubKeyV4()", 'C07.1')
